@@ -141,7 +141,17 @@ func (g *gen) propVal(self int, depth int) Val {
 	if g.o.Inheritance && depth < 2 && g.chance(1, 4, "nestedObjBoost") {
 		return Val{Kind: "obj", Obj: g.obj(self, depth+1, g.chance(2, 3, "nestedAllOfBoost2"))}
 	}
-	switch g.intn(10, "valKind") {
+	switch g.intn(12, "valKind") {
+	case 10:
+		if g.chance(1, 2, "emptyKind") {
+			return Val{Kind: "emptyarr"}
+		}
+		return Val{Kind: "emptyobj"}
+	case 11:
+		// an or-rule mixing a built-in type and a scalar user type
+		if tt, ok := g.refTarget(self, "orRuleT", "int", "str"); ok {
+			return Val{Kind: "orrule", Int: g.num(), Str: "integer", Ref: tt.name}
+		}
 	case 0:
 		if tt, ok := g.refTarget(self, "refT", "obj", "int", "regex", "arr"); ok {
 			return Val{Kind: "ref", Ref: tt.name}
